@@ -3158,9 +3158,9 @@ struct const_subarray<T, 1, ElementPtr, Layout>  // NOLINT(fuchsia-multiple-inhe
 	#endif
 
  public:
-	BOOST_MULTI_HD constexpr auto  begin() const& -> const_iterator { return begin_aux_(); }
+	BOOST_MULTI_HD constexpr auto  begin() const& -> const_iterator { return const_iterator{begin_aux_()}; }  // explicit: pointers such as transform_ptr have no implicit iterator -> const_iterator conversion
 
-	constexpr auto  end  () const& -> const_iterator { return end_aux_(); }
+	constexpr auto  end  () const& -> const_iterator { return const_iterator{end_aux_()}; }
 
 	[[deprecated("implement as negative stride")]] constexpr auto rbegin() const& { return const_reverse_iterator(end  ()); }  // TODO(correaa) implement as negative stride?
 	[[deprecated("implement as negative stride")]] constexpr auto rend  () const& { return const_reverse_iterator(begin()); }  // TODO(correaa) implement as negative stride?
